@@ -1,15 +1,16 @@
 /-
   Model driver for C12: prints, for each case of `harness/src/bin/c12.rs`, the same token
   sequence computed by the model (`Model/Geom/Intersect.lean`) at `Float32` / `Float`.
-  The `cubiccubic` family is oracle-only (not modelled) and is not dispatched here.
+  The `cubiccubic` family runs the fat-line clipper model of `Model/Geom/Clip.lean`.
 -/
 import LyonVerif.Drive.Common
 import LyonVerif.Model.Geom.Intersect
+import LyonVerif.Model.Geom.Clip
 
 namespace Lyon.Drive.C12
 open Lyon Lyon.Drive
 
-variable {α : Type} [Scalar α] [Transc α] [Wire α] [Sgn α] [Eps α]
+variable {α : Type} [Scalar α] [Transc α] [Wire α] [Sgn α] [Eps α] [Clip.F32Lit α]
 
 def fOptPair : Option (α × α) → String
   | none => "none"
@@ -88,6 +89,18 @@ def tri (v : Array String) : String :=
   let s : Seg α := rdSeg v 14
   unwords [ "c", fb (t.containsPoint p), "i", fb (t.intersects o), "s", fb (t.intersectsLineSegment s) ]
 
+/-- `a.cubic_intersections_t(&b)`, the same query with the curves swapped, and
+`a.cubic_intersections(&b)`; `panic` if any of them panics (`epsilon_for_point`), `fuel-out` if
+the model's fuel (not lyon's budget) stopped a recursion — never expected. -/
+def cubiccubic (v : Array String) : String :=
+  let a : Cubic α := ⟨rdP v 0, rdP v 2, rdP v 4, rdP v 6⟩
+  let b : Cubic α := ⟨rdP v 8, rdP v 10, rdP v 12, rdP v 14⟩
+  let st := Clip.cubicIntersectionsState a b
+  let rv := Clip.cubicIntersectionsState b a
+  if st.panicked || rv.panicked then "panic"
+  else if st.fuelOut || rv.fuelOut then "fuel-out"
+  else unwords [ "n", fPairs st.ixs, "rev", "n", fPairs rv.ixs, "pts", fPoints (Clip.cubicIntersections a b) ]
+
 def families : List Family := [
   ⟨"segseg", segseg (α := Float32), segseg (α := Float)⟩,
   ⟨"segline", segline (α := Float32), segline (α := Float)⟩,
@@ -97,7 +110,8 @@ def families : List Family := [
   ⟨"polyroots", polyroots (α := Float32), polyroots (α := Float)⟩,
   ⟨"cubicline", cubicline (α := Float32), cubicline (α := Float)⟩,
   ⟨"cubicseg", cubicseg (α := Float32), cubicseg (α := Float)⟩,
-  ⟨"tri", tri (α := Float32), tri (α := Float)⟩ ]
+  ⟨"tri", tri (α := Float32), tri (α := Float)⟩,
+  ⟨"cubiccubic", cubiccubic (α := Float32), cubiccubic (α := Float)⟩ ]
 
 end Lyon.Drive.C12
 
